@@ -29,6 +29,12 @@ _KEEP = []
 _CUR = {"out": None}
 
 
+def exc_class(e_cls, msg):
+    """class name of an exception of the real code; Z3 answering `unknown` gets its own name (it is
+    raised as a plain TypeError)"""
+    return "Z3Unknown" if "unknown result from z3" in (msg or "") else e_cls
+
+
 def rec(label, obj):
     """record str(obj) under label (called by the scripted sessions)"""
     try:
@@ -36,7 +42,7 @@ def rec(label, obj):
     except BaseException as e:  # printing is real code too
         if isinstance(e, (KeyboardInterrupt, SystemExit, MemoryError)):
             raise
-        txt = "EXC:" + type(e).__name__
+        txt = "EXC:" + exc_class(type(e).__name__, str(e))
     _CUR["out"].append([label, txt])
 
 
@@ -48,7 +54,7 @@ def compile_unit(label, procs):
     except BaseException as e:
         if isinstance(e, (KeyboardInterrupt, SystemExit, MemoryError)):
             raise
-        _CUR["out"].append([label, "EXC:" + type(e).__name__])
+        _CUR["out"].append([label, "EXC:" + exc_class(type(e).__name__, str(e))])
         _CUR["detail"].append(f"{label}: {type(e).__name__}: {str(e)[:200]}")
         return
     _CUR["out"].append([label + ":c", c])
@@ -159,7 +165,7 @@ def _run_pool(sess, env):
                 try:
                     p2 = stream.apply_attempt(p, a, senv)
                 except stream.Rejected as r:
-                    trace.append(a["op"] + ":" + r.cls)
+                    trace.append(a["op"] + ":" + exc_class(r.cls, r.msg))
                     continue
                 trace.append(a["op"] + ":ok")
                 p = p2
@@ -190,7 +196,7 @@ def main():
         except BaseException as e:  # the real code may raise anything anywhere
             if isinstance(e, (KeyboardInterrupt, SystemExit, MemoryError)):
                 raise
-            _CUR["out"].append(["session-aborted", "EXC:" + type(e).__name__])
+            _CUR["out"].append(["session-aborted", "EXC:" + exc_class(type(e).__name__, str(e))])
             _CUR["detail"].append(f"{type(e).__name__}: {str(e)[:300]}")
         res["sessions"][sess["name"]] = _CUR["out"]
         res["detail"][sess["name"]] = _CUR["detail"]
